@@ -3,20 +3,8 @@
 package shard
 
 import (
-	meta "github.com/nspcc-dev/neofs-node/pkg/local_object_storage/metabase"
 	oid "github.com/nspcc-dev/neofs-sdk-go/object/id"
 )
-
-// VerifRemoveGarbage runs one pass of the GC remover synchronously
-// (verification harness only).
-func (s *Shard) VerifRemoveGarbage() {
-	s.removeGarbage()
-}
-
-// VerifMetabase returns the shard's metabase (verification harness only).
-func (s *Shard) VerifMetabase() *meta.DB {
-	return s.metaBase
-}
 
 // VerifBlobAddresses lists the addresses of all objects in the shard's blob
 // storage (verification harness only).
